@@ -14,6 +14,7 @@ EXTENDS Ref, TLC, Json, IOUtils
 
 Defs   == ndJsonDeserialize(IOEnv.DEFS)
 MaxLen == atoi(IOEnv.MAXLEN)
+PMax   == atoi(IOEnv.PMAX)        \* partial lexers run on the inputs of up to PMax characters
 
 ErrDefault(D) == IF D.errcb THEN "FromCb" ELSE "Default"
 Num(n) == ToString(n)
@@ -31,6 +32,10 @@ Decide(D, src, l, p, e) ==
       skip  == [act |-> "skip", name |-> "", end |-> e]
       errd  == [act |-> "err", name |-> ErrDefault(D), end |-> e]
       errc  == [act |-> "err", name |-> "Custom(" \o Num(sel) \o ")", end |-> e]
+      \* bump(one more character, when there is one) BEFORE the callback returns: the bumped bytes belong to the
+      \* current item whatever the callback then decides (emit, error, skip) and the next attempt starts behind them
+      be    == IF e < Len(src) THEN RoundUp(D, src, e + 1) ELSE e
+      B(x)  == [x EXCEPT !.end = be]
   IN CASE k = ""              -> IF IsSkip(D, l) THEN skip ELSE emitu
        [] k = "unit_unit"     -> emitu
        [] k = "unit_bool"     -> IF sel % 2 = 0 THEN emitu ELSE errd
@@ -53,6 +58,11 @@ Decide(D, src, l, p, e) ==
        [] k = "val_filter"    -> IF sel % 2 = 0 THEN emitv ELSE skip
        [] k = "val_fr"        -> IF sel < 2 THEN emitv ELSE IF sel = 2 THEN skip ELSE errc
        [] k = "val_bump"      -> [emitv EXCEPT !.end = IF e < Len(src) THEN RoundUp(D, src, e + 1) ELSE e]
+       [] k = "bump_skip"     -> B(skip)
+       [] k = "bump_bool"     -> IF sel % 2 = 0 THEN B(emitu) ELSE B(errd)
+       [] k = "bump_res"      -> IF sel < 2 THEN B(emitv) ELSE B(errc)
+       [] k = "bump_filter"   -> IF sel % 2 = 0 THEN B(emitu) ELSE B(skip)
+       [] k = "skipcb_bump"   -> B(skip)
        [] k = "skip_unit"     -> skip
        [] k = "skip_skip"     -> skip
        [] k = "skip_res_unit" -> IF sel < 3 THEN skip ELSE errc
@@ -63,28 +73,31 @@ Decide(D, src, l, p, e) ==
        [] k = "any_fr"        -> IF sel = 0 THEN emitu ELSE IF sel = 1 THEN alt ELSE IF sel = 2 THEN skip ELSE errc
 
 (* the whole run from offset p: items and the callback invocation log *)
-RECURSIVE RunCb(_, _, _, _, _, _)
-RunCb(D, src, p, istart, items, log) ==
-  LET a == TLCEval(RefAttempt(D, src, FALSE, p)) IN
+(* partial: src is only a prefix of the input (Lexer::new_partial).  The run ends at the first None; a callback  *)
+(* runs only for a match that is committed, so the invocation log of a prefix run is what it is for the one-shot *)
+(* run up to that point (PartialIsPrefix below).                                                                  *)
+RECURSIVE RunCb(_, _, _, _, _, _, _)
+RunCb(D, src, partial, p, istart, items, log) ==
+  LET a == TLCEval(RefAttempt(D, src, partial, p)) IN
   IF a.k = "none" THEN [items |-> Append(items, <<"none", "", p, p>>), log |-> log]
   ELSE IF a.k = "err"
-       THEN RunCb(D, src, TLCEval(a.end), TLCEval(a.end), TLCEval(Append(items, <<"err", ErrDefault(D), p, a.end>>)), log)
+       THEN RunCb(D, src, partial, TLCEval(a.end), TLCEval(a.end), TLCEval(Append(items, <<"err", ErrDefault(D), p, a.end>>)), log)
   ELSE LET dec  == TLCEval(Decide(D, src, a.leaf, p, a.end))
            log2 == TLCEval(IF D.cbk[a.leaf] = "" THEN log ELSE Append(log, <<p, a.end>>))
-       IN IF dec.act = "skip" THEN RunCb(D, src, TLCEval(dec.end), TLCEval(dec.end), items, log2)
-          ELSE RunCb(D, src, TLCEval(dec.end), TLCEval(dec.end),
+       IN IF dec.act = "skip" THEN RunCb(D, src, partial, TLCEval(dec.end), TLCEval(dec.end), items, log2)
+          ELSE RunCb(D, src, partial, TLCEval(dec.end), TLCEval(dec.end),
                      TLCEval(Append(items, <<IF dec.act = "emit" THEN "ok" ELSE "err", dec.name, p, dec.end>>)), log2)
 
-VARIABLES d, phase, chars, src
-vars == <<d, phase, chars, src>>
+VARIABLES d, phase, chars, src, partial
+vars == <<d, phase, chars, src, partial>>
 D == Defs[d]
 Sel == {i \in 1..Len(Defs) : Defs[i].role = "cb" /\ Defs[i].accepted /\ Defs[i].refsOk /\ Len(Defs[i].chars) > 0}
 
-Init == d \in Sel /\ phase = "build" /\ chars = <<>> /\ src = <<>>
+Init == d \in Sel /\ phase = "build" /\ chars = <<>> /\ src = <<>> /\ partial = FALSE
 Extend(c) == /\ phase = "build" /\ Len(chars) < MaxLen
              /\ chars' = Append(chars, c) /\ src' = src \o D.chars[c]
-             /\ UNCHANGED <<d, phase>>
-Begin == phase = "build" /\ phase' = "run" /\ UNCHANGED <<d, chars, src>>
+             /\ UNCHANGED <<d, phase, partial>>
+Begin == phase = "build" /\ phase' = "run" /\ partial' \in (IF Len(chars) <= PMax THEN BOOLEAN ELSE {FALSE}) /\ UNCHANGED <<d, chars, src>>
 Next == Begin \/ \E c \in 1..Len(D.chars) : Extend(c)
 Spec == Init /\ [][Next]_vars
 
@@ -94,9 +107,21 @@ RECURSIVE Flat2(_, _)
 Flat2(DD, cs) == IF cs = <<>> THEN <<>> ELSE DD.chars[Head(cs)] \o Flat2(DD, Tail(cs))
 SkipTransparent ==
   (phase = "run" /\ D.twin # 0) =>
-     RunCb(D, src, 0, 0, <<>>, <<>>).items = RunCb(Defs[D.twin], Flat2(Defs[D.twin], chars), 0, 0, <<>>, <<>>).items
+     RunCb(D, src, partial, 0, 0, <<>>, <<>>).items = RunCb(Defs[D.twin], Flat2(Defs[D.twin], chars), partial, 0, 0, <<>>, <<>>).items
+
+(* C07 x C13: what a partial lexer over this text commits before its first None - items AND callback invocations -  *)
+(* is a leading run of what the ordinary lexer produces on the same text, unless a callback looked beyond the     *)
+(* match itself (the bump kinds read remainder(), which in a prefix buffer is shorter).                           *)
+IsPrefixOf(a, b) == Len(a) <= Len(b) /\ \A i \in 1..Len(a) : a[i] = b[i]
+Front(s) == SubSeq(s, 1, Len(s) - 1)
+LooksAhead(DD) == \E l \in 1..DD.nL : DD.cbk[l] \in {"val_bump", "bump_skip", "bump_bool", "bump_res", "bump_filter", "skipcb_bump"}
+PartialIsPrefix ==
+  (phase = "run" /\ partial /\ ~LooksAhead(D)) =>
+     LET pr == RunCb(D, src, TRUE, 0, 0, <<>>, <<>>)
+         fr == RunCb(D, src, FALSE, 0, 0, <<>>, <<>>)
+     IN IsPrefixOf(Front(pr.items), Front(fr.items)) /\ IsPrefixOf(pr.log, fr.log)
 
 Emit == phase = "run" =>
-          LET r == RunCb(D, src, 0, 0, <<>>, <<>>) IN
-          PrintT(<<"CBRUN", ToJson([d |-> d, chars |-> chars, items |-> r.items, log |-> r.log])>>)
+          LET r == RunCb(D, src, partial, 0, 0, <<>>, <<>>) IN
+          PrintT(<<"CBRUN", ToJson([d |-> d, chars |-> chars, partial |-> partial, items |-> r.items, log |-> r.log])>>)
 =============================================================================
